@@ -377,6 +377,19 @@ def wallet_job(spec):
         orc.merge(o)
         add_line("finalize", line_of("finalize", PC.NET, orc, "1", xb(rawS)), fin, subset=list(S))
         add_pred("finalize_iff_threshold", (fin != REJECT) == enough, fin != REJECT, enough, subset=list(S))
+        # the finaliser on the in-memory result of a history (never serialised in between): signatures were
+        # inserted in the order of the history, the outcome must still be the canonical one
+        if len(S) >= 2:
+            for how, order in (("combine", list(reversed(S))), ("sign", list(reversed(S))), ("sign", list(S))):
+                with PC.Oracle() as o:
+                    try:
+                        obj = run_tree(combine_shapes(order, "foldl")) if how == "combine" else run_seqsign(order)
+                        obj.finalize()
+                        got = xb(obj.serialize())
+                    except Exception:
+                        got = REJECT
+                orc.merge(o)
+                add_pred("finalize_in_memory_order_independent", got == fin, got, fin, subset=list(S), order=order, how=how)
         if rawF is None:
             continue
         with PC.Oracle() as o:
@@ -705,6 +718,7 @@ PREDICATES = {
     "reserialize_idempotent": "serialize(parse(serialize p)) == serialize p on the real code, after every step",
     "order_independent": "every permutation / combine tree / sign-then-combine mix of one signer subset gives the same bytes",
     "combine_idempotent": "p.combine(p) serialises as p",
+    "finalize_in_memory_order_independent": "finalize on the in-memory result of a history (signatures inserted in history order) gives the canonical finalised PSBT",
     "finalize_iff_threshold": "finalize succeeds iff >= m signers signed (exactly 1 for the single-key types)",
     "extract_verifies_iff_threshold": "final_tx returns a transaction that Tx.verify accepts iff the threshold is met",
     "bad_partial_sig_refused": "a PSBT carrying a partial signature that does not verify is refused by PSBT.parse",
